@@ -264,7 +264,11 @@ impl<T: Numeric> Atomic<T> {
 
     /// Loads a value from the atomic cell without performing synchronization
     pub(crate) fn unsync_load(&self, location: Location) -> T {
-        rt::execution(|execution| {
+        // Like any other access, the load gets its own point in the thread's
+        // causality. Otherwise it is indistinguishable from the thread's
+        // previous operation and appears to happen before whatever that
+        // operation synchronized with.
+        rt::synchronize(|execution| {
             let state = self.state.get_mut(&mut execution.objects);
 
             state
@@ -358,7 +362,7 @@ impl<T: Numeric> Atomic<T> {
     ///
     /// `with_mut` must happen-after all stores to the cell.
     pub(crate) fn with_mut<R>(&mut self, location: Location, f: impl FnOnce(&mut T) -> R) -> R {
-        let value = super::execution(|execution| {
+        let value = super::synchronize(|execution| {
             let state = self.state.get_mut(&mut execution.objects);
 
             state
